@@ -1,5 +1,6 @@
 import BS.Model.Table
 import BS.Proofs.Probe
+import BS.Proofs.KV
 import Mathlib.Data.Fintype.Card
 import Mathlib.Data.Fintype.EquivFin
 import Mathlib.Data.Nat.ModEq
@@ -75,6 +76,9 @@ end BS.Table
 namespace BS.Table
 open BS.KV
 
+/-- number of occupied slots -/
+def occ (tb : T) : Nat := ((Finset.range tb.cap).filter fun j => (tb.slots j).isSome).card
+
 /-- the table invariant: capacity a power of two, nothing outside it, one slot per key, and every entry is reachable
 from its key's first probe through slots holding other keys (no deletion ever punches a hole into a probe path) -/
 structure Inv (h : Int → Nat) (tb : T) : Prop where
@@ -83,6 +87,7 @@ structure Inv (h : Int → Nat) (tb : T) : Prop where
   uniq : ∀ i j a b, tb.slots i = some a → tb.slots j = some b → a.1 = b.1 → i = j
   reach : ∀ s a, tb.slots s = some a → ∃ t, t < tb.cap ∧ pidx h tb.cap a.1 t = s ∧
     ∀ t', t' < t → ∃ b, tb.slots (pidx h tb.cap a.1 t') = some b ∧ b.1 ≠ a.1
+  lenok : tb.len = occ tb
 
 def HasFree (tb : T) : Prop := ∃ e, e < tb.cap ∧ tb.slots e = none
 
@@ -202,6 +207,46 @@ theorem has_at_probe {h : Int → Nat} {tb : T} (hi : Inv h tb) (k : Int) (t1 : 
 theorem upd_same (s : Nat → Option KV) (i : Nat) (x : KV) : upd s i x i = some x := by simp [upd]
 theorem upd_other (s : Nat → Option KV) (i j : Nat) (x : KV) (h : j ≠ i) : upd s i x j = s j := by simp [upd, h]
 
+theorem occ_upd_none (tb : T) (i : Nat) (x : KV) (len' : Nat) (hi : i < tb.cap) (hn : tb.slots i = none) :
+    occ { tb with slots := upd tb.slots i x, len := len' } = occ tb + 1 := by
+  unfold occ
+  simp only
+  have : ((Finset.range tb.cap).filter fun j => (upd tb.slots i x j).isSome) =
+      Insert.insert i ((Finset.range tb.cap).filter fun j => (tb.slots j).isSome) := by
+    ext j
+    simp only [Finset.mem_filter, Finset.mem_range, Finset.mem_insert]
+    by_cases hj : j = i
+    · subst hj; simp [upd_same, hi]
+    · simp [upd_other _ _ _ _ hj, hj]
+  rw [this, Finset.card_insert_of_notMem]
+  simp [hn]
+
+theorem occ_upd_some (tb : T) (i : Nat) (x y : KV) (hs : tb.slots i = some y) :
+    occ { tb with slots := upd tb.slots i x } = occ tb := by
+  unfold occ
+  simp only
+  congr 1
+  ext j
+  simp only [Finset.mem_filter, Finset.mem_range]
+  by_cases hj : j = i
+  · subst hj; simp [upd_same, hs]
+  · simp [upd_other _ _ _ _ hj]
+
+theorem hasFree_of_occ_lt (tb : T) (h : occ tb < tb.cap) : HasFree tb := by
+  by_contra hno
+  unfold HasFree at hno
+  have hall : ∀ e, e < tb.cap → (tb.slots e).isSome = true := by
+    intro e he
+    cases hs : tb.slots e with
+    | none => exact absurd ⟨e, he, hs⟩ hno
+    | some _ => rfl
+  have : ((Finset.range tb.cap).filter fun j => (tb.slots j).isSome) = Finset.range tb.cap := by
+    apply Finset.filter_true_of_mem
+    intro e he; exact hall e (Finset.mem_range.mp he)
+  unfold occ at h
+  rw [this, Finset.card_range] at h
+  omega
+
 /-- **insert maintains the invariant** and acts on the key ↦ value map as an upsert -/
 theorem insert_spec (comb : Int → Int → Int) (h : Int → Nat) (tb : T) (r : KV) (hi : Inv h tb) (hf : HasFree tb) :
     ∃ tb', insert comb h tb r = some tb' ∧ Inv h tb' ∧ tb'.cap = tb.cap ∧
@@ -221,7 +266,7 @@ theorem insert_spec (comb : Int → Int → Int) (h : Int → Nat) (tb : T) (r :
       rw [this] at hs
       rw [show pidx h tb.cap r.1 t1 = i from rfl, hsi] at hs; cases hs
     refine ⟨_, insert_added comb h tb r i hp', ?_, rfl, ?_, ?_⟩
-    · refine ⟨hi.pow, ?_, ?_, ?_⟩
+    · refine ⟨hi.pow, ?_, ?_, ?_, by rw [occ_upd_none tb i r _ hilt hsi]; show tb.len + 1 = _; rw [hi.lenok]⟩
       · intro j hj
         have hj' : tb.cap ≤ j := hj
         show upd tb.slots i r j = none
@@ -290,7 +335,7 @@ theorem insert_spec (comb : Int → Int → Int) (h : Int → Nat) (tb : T) (r :
     have hp' : probe h tb r.1 tb.cap 0 = some (i, false) := by rw [hp]; show some (i, _) = _; rw [hsi]; rfl
     have hhas : Has tb r.1 kv.2 := ⟨i, by rw [hsi, ← hkv]⟩
     refine ⟨_, insert_found comb h tb r i kv hp' hsi, ?_, rfl, ?_, ?_⟩
-    · refine ⟨hi.pow, ?_, ?_, ?_⟩
+    · refine ⟨hi.pow, ?_, ?_, ?_, by rw [occ_upd_some tb i _ kv hsi]; show tb.len = _; exact hi.lenok⟩
       · intro j hj
         have hj' : tb.cap ≤ j := hj
         show upd tb.slots i (r.1, comb kv.2 r.2) j = none
@@ -496,5 +541,204 @@ theorem repr_insert (comb : Int → Int → Int) (h : Int → Nat) (tb : T) (r :
       exact (hfound v0 ((hr _ _).mpr h0)).1
     · intro hex
       exact (hadd (by rintro ⟨v0, h0⟩; exact hex ⟨v0, (hr _ _).mp h0⟩)).1
+
+end BS.Table
+
+namespace BS.Table
+open BS.KV
+
+/-! ### entries, rehashing, growth -/
+
+theorem mem_entries {h : Int → Nat} {tb : T} (hi : Inv h tb) (k v : Int) : (k, v) ∈ entries tb ↔ Has tb k v := by
+  unfold entries Has
+  rw [List.mem_filterMap]
+  constructor
+  · rintro ⟨s, _, hs⟩; exact ⟨s, hs⟩
+  · rintro ⟨s, hs⟩
+    refine ⟨s, ?_, hs⟩
+    rw [List.mem_range]
+    by_contra hge
+    rw [hi.bound s (by omega)] at hs; cases hs
+
+theorem entries_keys {h : Int → Nat} {tb : T} (hi : Inv h tb) (a b : KV) (ha : a ∈ entries tb) (hb : b ∈ entries tb)
+    (hk : a.1 = b.1) : a = b := by
+  obtain ⟨i, hi'⟩ := (mem_entries hi a.1 a.2).mp ha
+  obtain ⟨j, hj'⟩ := (mem_entries hi b.1 b.2).mp hb
+  have := hi.uniq i j _ _ hi' hj' hk
+  rw [this, hj'] at hi'
+  exact (Option.some.inj hi').symm
+
+theorem filterMap_range_length (f : Nat → Option KV) (n : Nat) :
+    ((List.range n).filterMap f).length = ((Finset.range n).filter fun j => (f j).isSome).card := by
+  induction n with
+  | zero => simp
+  | succ n ih =>
+    rw [List.range_succ, List.filterMap_append, List.length_append, ih, Finset.range_add_one, Finset.filter_insert]
+    cases hf : f n with
+    | none => simp [hf]
+    | some x =>
+      simp only [List.filterMap_cons, hf, List.filterMap_nil, List.length_singleton, Option.isSome_some, if_true]
+      rw [Finset.card_insert_of_notMem (by simp)]
+
+theorem entries_length (tb : T) : (entries tb).length = occ tb := filterMap_range_length tb.slots tb.cap
+
+theorem entries_nodup {h : Int → Nat} {tb : T} (hi : Inv h tb) : (entries tb).Nodup := by
+  unfold entries
+  apply List.Nodup.filterMap _ (List.nodup_range)
+  intro a a' b hb hb'
+  exact hi.uniq a a' b b hb hb' rfl
+
+theorem inv_empty (h : Int → Nat) (m : Nat) : Inv h (empty (2 ^ m)) := by
+  refine ⟨⟨m, rfl⟩, fun _ _ => rfl, ?_, ?_, ?_⟩
+  · intro i j a b ha; simp [empty] at ha
+  · intro s a ha; simp [empty] at ha
+  · simp [empty, occ]
+
+theorem rehashInto_cons (comb : Int → Int → Int) (h : Int → Nat) (e : KV) (es : List KV) (tb : T) :
+    rehashInto comb h (e :: es) tb = (insert comb h tb e).bind (rehashInto comb h es) := by
+  unfold rehashInto
+  simp only [List.foldl_cons, Option.bind_some]
+  cases insert comb h tb e with
+  | none =>
+    simp only [Option.bind_none]
+    induction es with
+    | nil => rfl
+    | cons x xs ih => simpa using ih
+  | some t => rfl
+
+/-- rehashing distinct-key entries into a table with enough room adds exactly those entries -/
+theorem rehash_spec (comb : Int → Int → Int) (h : Int → Nat) :
+    ∀ (es : List KV) (tb : T) (P : List KV), Inv h tb → (∀ k v, Has tb k v ↔ (k, v) ∈ P) →
+      (∀ a b, a ∈ es → b ∈ es → a.1 = b.1 → a = b) → es.Nodup → (∀ a b, a ∈ es → b ∈ P → a.1 ≠ b.1) →
+      occ tb + es.length < tb.cap →
+      ∃ tb', rehashInto comb h es tb = some tb' ∧ Inv h tb' ∧ tb'.cap = tb.cap ∧
+        (∀ k v, Has tb' k v ↔ ((k, v) ∈ P ∨ (k, v) ∈ es)) ∧ tb'.len = tb.len + es.length := by
+  intro es
+  induction es with
+  | nil =>
+    intro tb P hi hP _ _ _ _
+    exact ⟨tb, rfl, hi, rfl, fun k v => by simp [hP k v], by simp⟩
+  | cons e es ih =>
+    intro tb P hi hP hkeys hnd hdisj hroom
+    have hfree : HasFree tb := hasFree_of_occ_lt tb (by simp at hroom; omega)
+    obtain ⟨t1, hins, hinv1, hcap1, hadd, _⟩ := insert_spec comb h tb e hi hfree
+    have habs : ¬ ∃ v, Has tb e.1 v := by
+      rintro ⟨v, hv⟩
+      exact hdisj e (e.1, v) (by simp) ((hP _ _).mp hv) rfl
+    obtain ⟨hlen1, hhas1⟩ := hadd habs
+    have hP1 : ∀ k v, Has t1 k v ↔ (k, v) ∈ e :: P := by
+      intro k v
+      rw [hhas1 k v, List.mem_cons, hP k v]
+      constructor
+      · rintro (⟨rfl, rfl⟩ | h0)
+        · exact Or.inl rfl
+        · exact Or.inr h0
+      · rintro (h0 | h0)
+        · exact Or.inl ⟨(Prod.mk.inj h0).1, (Prod.mk.inj h0).2⟩
+        · exact Or.inr h0
+    have hnd' := List.nodup_cons.mp hnd
+    obtain ⟨t2, hre, hinv2, hcap2, hhas2, hlen2⟩ := ih t1 (e :: P) hinv1 hP1
+      (fun a b ha hb => hkeys a b (by simp [ha]) (by simp [hb])) hnd'.2
+      (by
+        intro a b ha hb
+        rcases List.mem_cons.mp hb with hb | hb
+        · intro hk
+          have := hkeys a e (by simp [ha]) (by simp) (by rw [hk, hb])
+          rw [this] at ha
+          exact hnd'.1 ha
+        · exact hdisj a b (by simp [ha]) hb)
+      (by rw [← hinv1.lenok, hlen1, hi.lenok, hcap1]; simp at hroom; omega)
+    refine ⟨t2, by rw [rehashInto_cons, hins]; exact hre, hinv2, by rw [hcap2, hcap1], ?_, by rw [hlen2, hlen1]; simp; omega⟩
+    intro k v
+    rw [hhas2 k v, List.mem_cons, List.mem_cons]
+    constructor
+    · rintro ((h0 | h0) | h0)
+      · exact Or.inr (Or.inl h0)
+      · exact Or.inl h0
+      · exact Or.inr (Or.inr h0)
+    · rintro (h0 | h0 | h0)
+      · exact Or.inl (Or.inr h0)
+      · exact Or.inl (Or.inl h0)
+      · exact Or.inr h0
+
+theorem threshold_lt (m : Nat) : threshold (2 ^ m) < 2 ^ m := by
+  unfold threshold
+  have : 0 < 2 ^ m := Nat.two_pow_pos m
+  omega
+
+/-- the table is in its steady state: invariant holds and the load is within the threshold -/
+def Good (h : Int → Nat) (tb : T) : Prop := Inv h tb ∧ tb.len ≤ threshold tb.cap
+
+/-- **one `Combine` of a row, including the growth step** -/
+theorem combine1_spec (comb : Int → Int → Int) (h : Int → Nat) (tb : T) (r : KV) (m : List KV)
+    (hg : Good h tb) (hm : StrictSorted m) (hr : Repr tb m) :
+    ∃ tb', combine1 comb h tb r = some tb' ∧ Good h tb' ∧ Repr tb' (insertKV comb r.1 r.2 m) := by
+  obtain ⟨hi, hload⟩ := hg
+  obtain ⟨mm, hmm⟩ := hi.pow
+  have hlt : tb.len < tb.cap := by rw [hmm] at hload ⊢; exact Nat.lt_of_le_of_lt hload (threshold_lt mm)
+  have hfree : HasFree tb := hasFree_of_occ_lt tb (by rw [← hi.lenok]; exact hlt)
+  obtain ⟨t1, hins, hinv1, hcap1, hrepr1, hlenS, hlenA⟩ := repr_insert comb h tb r m hi hfree hm hr
+  have hlen1 : t1.len ≤ tb.len + 1 := by
+    by_cases hex : ∃ v0, (r.1, v0) ∈ m
+    · rw [hlenS hex]; omega
+    · rw [hlenA hex]
+  unfold combine1
+  rw [hins]
+  simp only [Option.bind_some, grow]
+  split
+  · rename_i hle
+    exact ⟨t1, rfl, ⟨hinv1, hle⟩, hrepr1⟩
+  · rename_i hgt
+    -- rehash into a table of twice the capacity
+    have hes := entries_length t1
+    have hocc1 : occ t1 = t1.len := hinv1.lenok.symm
+    have hcap1' : t1.cap = 2 ^ mm := by rw [hcap1, hmm]
+    have hinvE : Inv h (empty (2 * t1.cap)) := by
+      rw [hcap1', show 2 * 2 ^ mm = 2 ^ (mm + 1) by rw [pow_succ]; ring]
+      exact inv_empty h (mm + 1)
+    have hoccle : t1.len ≤ t1.cap := by
+      rw [← hocc1, ← hes]
+      unfold entries
+      exact (List.length_filterMap_le _ _).trans (by simp)
+    obtain ⟨t2, hre, hinv2, hcap2, hhas2, hlen2⟩ := rehash_spec comb h (entries t1) (empty (2 * t1.cap)) [] hinvE
+      (by intro k v; simp [Has, empty])
+      (fun a b ha hb hk => entries_keys hinv1 a b ha hb hk) (entries_nodup hinv1)
+      (by intro a b _ hb; simp at hb)
+      (by
+        have : occ (empty (2 * t1.cap)) = 0 := by simp [occ, empty]
+        rw [this, hes, hocc1]
+        show 0 + t1.len < 2 * t1.cap
+        have : 0 < t1.cap := by rw [hcap1']; exact Nat.two_pow_pos mm
+        omega)
+    refine ⟨t2, hre, ⟨hinv2, ?_⟩, ?_⟩
+    · rw [hlen2, hcap2, hes, hocc1]
+      show 0 + t1.len ≤ threshold (2 * t1.cap)
+      have hpos : 0 < tb.cap := by rw [hmm]; exact Nat.two_pow_pos mm
+      unfold threshold at hload hgt ⊢
+      rw [hcap1] at hgt ⊢
+      omega
+    · intro k v
+      rw [hhas2 k v]
+      simp only [List.not_mem_nil, false_or]
+      rw [mem_entries hinv1 k v]
+      exact hrepr1 k v
+
+/-- **the combining frame computes the keyed fold**: whatever the hash function, the initial capacity (a power of
+two) and the rows, after combining `rows` the table holds exactly the entries of `foldMap comb rows` -/
+theorem combineAll_spec (comb : Int → Int → Int) (h : Int → Nat) :
+    ∀ (rows : List KV) (tb : T) (m : List KV), Good h tb → StrictSorted m → Repr tb m →
+      ∃ tb', combineAll comb h tb rows = some tb' ∧ Good h tb' ∧
+        Repr tb' (rows.foldl (fun m r => insertKV comb r.1 r.2 m) m) := by
+  intro rows
+  induction rows with
+  | nil => intro tb m hg _ hr; exact ⟨tb, rfl, hg, hr⟩
+  | cons r rows ih =>
+    intro tb m hg hm hr
+    obtain ⟨t1, hc, hg1, hr1⟩ := combine1_spec comb h tb r m hg hm hr
+    obtain ⟨t2, hc2, hg2, hr2⟩ := ih t1 _ hg1 (insertKV_strict comb r.1 r.2 m hm) hr1
+    refine ⟨t2, ?_, hg2, hr2⟩
+    unfold combineAll at hc2 ⊢
+    simp only [List.foldl_cons, Option.bind_some, hc]
+    exact hc2
 
 end BS.Table
